@@ -245,9 +245,8 @@ Logs(n) ==
 
 \* infs.RemoveBtree: non transactional, complete
 RemoveStore(s) ==
-  /\ s \in DOMAIN cat
   /\ \A t \in DOMAIN tx : Live(t) => s \notin tx[t].opened
-  /\ cat' = Without(cat, s) /\ db' = Without(db, s)
+  /\ cat' = Without(cat, s) /\ db' = Without(db, s)      \* removing a store that does not exist is a no-op
   /\ UNCHANGED tx
 
 \* Observation by a fresh transaction / fresh process: exactly the committed state
